@@ -128,6 +128,12 @@ func (impl *serviceImpl) Propose(ctx gorums.ServerCtx, proposal *hotstuffpb.Prop
 		return
 	}
 	if impl.srv.config.HasKauriTree() {
+		// with a tree the proposal is relayed from parent to children: the peer that sends it is the
+		// parent, and the proposer is the one named in the block.
+		if parent, ok := impl.srv.config.Tree().Parent(); !ok || id != parent {
+			impl.srv.logger.Warnf("Received a proposal from %d, which is not the parent in the tree", id)
+			return
+		}
 		id = proposal.ProposerID()
 	}
 	proposal.Block.Proposer = uint32(id)
